@@ -1,4 +1,5 @@
 import Sqljson.Audit
+import Sqljson.Props.C17b
 import Sqljson.Props.GenFacts
 import Sqljson.Props.GenLinksTime
 import Sqljson.Props.C17
@@ -6,3 +7,4 @@ open Sqljson
 #audit_ns C17 Sqljson.C17
 #audit C17 [Sqljson.Time.castTo_diag, Sqljson.Time.castTo_tzRequired_iff, Sqljson.Time.castTo_notRecognized_iff, Sqljson.Time.castTo_ok_of_useTZ, Sqljson.Time.castTo_kind, Sqljson.Time.compareDatetime_tzRequired_iff, Sqljson.Time.compareDatetime_error, Sqljson.Time.compareDatetime_incomparable_iff, Sqljson.Time.compareDatetime_range, Sqljson.Time.compareDatetime_swap, Sqljson.Time.compareDatetime_antisymm, Sqljson.Time.compareDatetime_refl, Sqljson.Time.compareDatetime_sameKind, Sqljson.Time.compareDatetime_trans_sameKind, Sqljson.Time.timestampToTimestampTZ_eq, Sqljson.Time.dateToTimestampTZ_eq, Sqljson.Time.compare_equals_cast, Sqljson.Time.compare_cast_commute, Sqljson.Time.compare_cast_commute_utc, Sqljson.Time.castTo_timestamptz_fixed, Sqljson.Time.compare_direct_fixed, Sqljson.Time.compare_after_cast_fixed, Sqljson.Time.Zone.strictMono_fixed, Sqljson.Time.compareDatetime_instant, Sqljson.Time.compareDatetime_trans_instant, Sqljson.Time.compareDatetime_trans_instant_fixed, Sqljson.Time.compare_not_transitive_in_gap, Sqljson.Time.envNY_not_strictMono, Sqljson.Time.compare_not_transitive_on_gap_day]
 #audit C17 [Sqljson.GenLinks.parse_cascade_link, Sqljson.GenLinks.format_consts_link, Sqljson.GenLinks.out_layouts_are_consts, Sqljson.GenFacts.layouts_unchanged]
+#audit_ns C17 Sqljson.C17b
